@@ -25,7 +25,7 @@ def scale_building(b, k):
     return nb
 
 
-def run(prop, tier, seed, theorems, make_pairs, level_note, rule, n_pairs=None, n_model=None, want=()):
+def run(prop, tier, seed, theorems, make_pairs, level_note, rule, n_pairs=None, n_model=None, want=(), extra_stage=None):
     """make_pairs(rng, count) -> list of (base_case, [(variant_case, relation_fn, label)])
     relation_fn(base_impl_eval, variant_impl_eval, base_case, variant_case) -> list of (what, detail)"""
     R = check.Result(prop, tier, seed)
@@ -51,6 +51,8 @@ def run(prop, tier, seed, theorems, make_pairs, level_note, rule, n_pairs=None, 
         meta["coverage"]["coqchk"] = {"ok": cok, "axioms": axioms}
         if not cok or axioms:
             R.broken.append(("coqchk", {"ok": cok, "axioms": axioms, "tail": tail}))
+    if extra_stage:
+        extra_stage(R, rng, meta)
     pairs = make_pairs(rng, n_pairs)
     allc = []
     for base, variants in pairs:
